@@ -7,10 +7,12 @@ import (
 	"fmt"
 	"math"
 	"math/rand"
+	"sort"
 	"strconv"
 	"strings"
 
 	"github.com/ipfs/go-cid"
+	"github.com/ipfs/go-graphsync"
 	"github.com/ipld/go-ipld-prime/node/basicnode"
 	"github.com/ipld/go-ipld-prime/traversal/selector"
 	selbuilder "github.com/ipld/go-ipld-prime/traversal/selector/builder"
@@ -28,8 +30,31 @@ var keyPool = []string{"", "a", "b", "B", "aa", "ab", "z", "\xff", "\x00", "id",
 var extNames = []string{"graphsync/do-not-send-cids", "graphsync/dedup-by-key", "graphsync/do-not-send-first-blocks",
 	"graphsync/response-metadata", "", "x", "\xff\xfe", "a-fairly-long-extension-name/with/slashes"}
 
-var statusCodes = []int{10, 11, 12, 13, 14, 15, 20, 21, 30, 31, 32, 33, 34, 35}
-var actions = []string{"Present", "DuplicateNotSent", "Missing", "DuplicateDAGSkipped"}
+// "any defined status": the status codes and link actions are taken from the Go constants of the
+// repository under test (graphsync.ResponseCodeToName lists every ResponseStatusCode constant).
+var statusCodes = definedStatusCodes()
+var actions = []string{string(graphsync.LinkActionPresent), string(graphsync.LinkActionDuplicateNotSent),
+	string(graphsync.LinkActionMissing), string(graphsync.LinkActionDuplicateDAGSkipped)}
+
+func definedStatusCodes() []int {
+	var cs []int
+	for c := range graphsync.ResponseCodeToName {
+		cs = append(cs, int(c))
+	}
+	cs = append(cs, int(graphsync.RequestAcknowledged), int(graphsync.AdditionalPeers), int(graphsync.NotEnoughGas),
+		int(graphsync.OtherProtocol), int(graphsync.PartialResponse), int(graphsync.RequestPaused),
+		int(graphsync.RequestCompletedFull), int(graphsync.RequestCompletedPartial), int(graphsync.RequestRejected),
+		int(graphsync.RequestFailedBusy), int(graphsync.RequestFailedUnknown), int(graphsync.RequestFailedLegal),
+		int(graphsync.RequestFailedContentNotFound), int(graphsync.RequestCancelled))
+	sort.Ints(cs)
+	out := cs[:0]
+	for i, c := range cs {
+		if i == 0 || c != cs[i-1] {
+			out = append(out, c)
+		}
+	}
+	return out
+}
 
 type hashChoice struct {
 	code   uint64
